@@ -26,6 +26,7 @@ ASSUMPTIONS = [
     "run; it is not verified",
     "the Lean model of rlib_f80 is hand-written; it is tied to the code by running both on the same cases",
     "the harness reads/writes the ten bytes of the private field with transmute_copy (observation only)",
+    "the harness calls f80_init() first (as the crate documents); a separate process without the call runs a small pre-init stream",
 ]
 TRUSTED_EXTRA = ["the CPU's x87 unit (differentially compared with the Lean soft-float, never proved)"]
 MANIFEST = {
@@ -33,7 +34,7 @@ MANIFEST = {
     "text": ("Lean 4 theorems, for ALL bit patterns of the ten bytes (NaNs, signed zeros, denormals, infinities, unsupported encodings): the "
              "<, >, <=, >=, partial_cmp, ==, min, max, abs logic that rlib_f80 builds on the fcomi/fucomi flag outcome equals the IEEE order of "
              "the operand classes (NaN unordered, -0 = +0, == consistent with partial_cmp). The meaning of `correctly rounded` is an exact "
-             "soft-float (round-to-nearest-even to p bits with gradual underflow and overflow to infinity) for which nearest/half-ulp, "
+             "soft-float; it is proved that its + - * / and f80->f64 equal the exact rational result rounded ONCE (roundRat: nearest, half-ulp, signed zeros, overflow, subnormals, inf/NaN tables), that the driver's independent fraction-arithmetic S equals the model M, and for the rounding: nearest/half-ulp, "
              "ties-to-even, monotonicity, exactness on representables and f64 -> f80 -> f64 = identity for every non-NaN f64 pattern are "
              "proved. The x87 instructions are compared with that soft-float differentially on every check."),
     "note": ("PARTIAL: what the FPU instructions actually do (fadd, fsub, fmul, fdiv, fchs, fld/fstp of both widths, fcomi/fucomi flags, fcmov) is "
@@ -82,3 +83,55 @@ def extract(repo):
     params["max_select"] = (re.findall(r"fcmov\w+", m.group(2)) or ["?"])[0] if m else "?"
     params["manual_PartialEq"] = "impl PartialEq for f80" in src
     return params, []
+
+
+def extra(ctx):
+    """The main run compares arithmetic AFTER the documented `f80_init()` (the harness calls it first thing in `main`).
+    This step runs a small stream in a SEPARATE process that never calls `f80_init()` (`--noinit 1`), so both the
+    state a program is in before the call and the state after it are compared with the specification."""
+    import os as _os
+    import veriflib as V
+    findings = []
+    n = 0
+    nontriv = 0
+    for pipe in ctx["pipes"]:
+        saved = list(pipe.extra_args)
+        try:
+            cases = _os.path.join(ctx["workdir"], f"preinit.cases.{pipe.profile}")
+            impl = _os.path.join(ctx["workdir"], f"preinit.impl.{pipe.profile}")
+            model = _os.path.join(ctx["workdir"], f"preinit.model.{pipe.profile}")
+            pipe.extra_args = saved + ["--stream", "preinit"]
+            stats = pipe.gen(ctx["seed"], ctx["tier"], cases)
+            pipe.extra_args = saved + ["--noinit", "1"]
+            rc, err = pipe.run_impl(cases, impl)
+            pipe.run_model(cases, model)
+            if rc != 0:
+                findings.append({"class": "broken", "what": f"pre-init harness run exited rc={rc}: {err[-300:]}"})
+            drift = None
+            with open(cases) as fc, open(impl) as fi, open(model) as fm:
+                for case in fc:
+                    case = case.rstrip("\n")
+                    il = fi.readline().rstrip("\n")
+                    ml = fm.readline().rstrip("\n")
+                    n += 1
+                    rec = {"case": case, "impl": V.parse_impl(il), "model": V.parse_model(ml)}
+                    cl = V.classify(rec)
+                    if cl == "ok":
+                        if nontrivial(case, rec):
+                            nontriv += 1
+                    elif cl == "violation":
+                        findings.append({"class": "violation", "what": "before f80_init(): implementation != specification",
+                                         "case": "[no f80_init] " + case, "impl": il, "model": ml, "profile": pipe.profile})
+                        break
+                    elif cl == "machinery":
+                        raise V.Machinery(f"pre-init stream: model/spec disagree or unparsable: case={case!r} impl={il!r} model={ml!r}")
+                    elif drift is None:
+                        drift = {"case": case, "impl": il, "model": ml}
+            if drift is not None:
+                findings.append({"class": "broken", "what": "before f80_init(): implementation and model differ on a raw detail", "detail": [drift]})
+            ctx["coverage"]["preinit_stream"] = stats
+        finally:
+            pipe.extra_args = saved
+    ctx["coverage"]["extra_evaluations"] = n
+    ctx["coverage"]["extra_nontrivial"] = nontriv
+    return findings
